@@ -153,6 +153,9 @@ func (g *dataGen) val(t TRef, depth int, key bool) *Val {
 	case "bool":
 		return &Val{K: "bool", B: g.r.Bool()}
 	case "enum":
+		if g.pFail > 0 && g.r.Chance(g.pFail/2) {
+			return &Val{K: "enum", I: BadEnum} // a value the enum has no name for
+		}
 		i := g.r.Intn(3)
 		return &Val{K: "enum", I: int64(i), S: ColorNames[i]}
 	case "obj":
@@ -205,9 +208,17 @@ func (g *dataGen) val(t TRef, depth int, key bool) *Val {
 	panic("val " + t.K)
 }
 
+// BadEnum is a value of the enum's Go type that is not in its map.
+const BadEnum = 7
+
 // InjectFailure makes exactly one of the resolver results the query uses fail (results that lie behind
 // a nil list entry are preferred): the query then has one needed failure, at a known response path.
-func InjectFailure(r *vh.Rng, reached []Reached) bool {
+func InjectFailure(r *vh.Rng, reached []Reached, enums []*Val) bool {
+	if len(enums) > 0 && r.Chance(20) {
+		// an enum value outside the map, anywhere among those the query reads
+		enums[r.Intn(len(enums))].I = BadEnum
+		return true
+	}
 	if len(reached) == 0 {
 		return false
 	}
